@@ -51,7 +51,8 @@ public:
 
   double randC() const
   {
-    return RandomTools::randGaussian(mu_, sigma_);
+    // randGaussian() takes the variance.
+    return RandomTools::randGaussian(mu_, sigma_ * sigma_);
   }
 
   double qProb(double x) const;
